@@ -11,7 +11,8 @@ def accDescJson (ad : AccDesc JJ) : Json :=
   Json.mkObj [("name", Json.str ad.name),
               ("kind", Json.str (match ad.kind with | .parameter => "param" | .command => "command")),
               ("datainfo", Json.str ad.datainfo), ("readonly", jopt Json.bool ad.readonly),
-              ("constant", jopt Json.str ad.constant), ("props", propsJson ad.props)]
+              ("constant", jopt Json.str ad.constant), ("props", propsJson ad.props),
+              ("argument", jopt Json.bool ad.argument)]
 
 def modDescJson (md : ModDesc JJ) : Json :=
   Json.mkObj [("name", Json.str md.name), ("accs", jarr (md.accs.map accDescJson)), ("props", propsJson md.props)]
@@ -22,12 +23,87 @@ def parsePropsArr (j : Json) : R (List (String × JJ)) := do
     | [.str k, .str v] => return (k, v)
     | _ => throw "bad prop")
 
+/-- does a described command datainfo (the JSON text of the report) have an `argument` member? -/
+def argumentOf (datainfo : JJ) : Option Bool :=
+  match Json.parse datainfo with
+  | .ok j => match j.getObjVal? "argument" with
+    | .ok v => some (!v.isNull)
+    | .error _ => some false
+  | .error _ => none
+
 def parseAccDesc (j : Json) : R (AccDesc JJ) := do
   let kind ← fldStr j "kind"
   let ro ← fld j "readonly"
-  return ⟨← fldStr j "name", if kind == "param" then .parameter else .command, ← fldStr j "datainfo",
+  let datainfo ← fldStr j "datainfo"
+  return ⟨← fldStr j "name", if kind == "param" then .parameter else .command, datainfo,
           ← (if ro.isNull then pure none else some <$> ro.getBool?), ← optStr (← fld j "constant"),
-          ← parsePropsArr (← fld j "props")⟩
+          ← parsePropsArr (← fld j "props"), if kind == "param" then none else argumentOf datainfo⟩
+
+/-- a property value as the harness sends it: the canonical form of the Python value (`canon`: equality of Python values)
+and its serialisation (`canonj` of the exported value) -/
+abbrev PP := String × String
+
+/-- validated strings / lists of strings (a validated `ArrayOf` value is a tuple) in these two forms -/
+def enc : PropEnc PP where
+  str := fun s => ("s:" ++ (Json.str s).compress, (Json.str s).compress)
+  strs := fun l => ("t[" ++ ",".intercalate (l.map (fun s => "s:" ++ (Json.str s).compress)) ++ "]",
+                    "[" ++ ", ".intercalate (l.map (fun s => (Json.str s).compress)) ++ "]")
+
+def parsePVals (j : Json) : R (List (String × PP)) := do
+  (← arr j).mapM (fun row => do
+    match ← arr row with
+    | [.str k, .str c, .str v] => return (k, (c, v))
+    | _ => throw "bad property value")
+
+/-- `init` of a module in the node JSON: declared properties, class-level values, configuration, class name -/
+def parseInit (m : Json) (mro : List ClassInfo) : R (Option (ModInit PP)) := do
+  match m.getObjVal? "init" with
+  | .error _ => return none
+  | .ok i =>
+    if i.isNull then return none
+    let decls ← (← fldArr i "decls").mapM (fun row => do
+      match ← arr row with
+      | [.str n, .str e, .bool x, .bool a, .str c, .str d] => return (PropDecl.mk n e x a (c, d) : PropDecl PP)
+      | _ => throw "bad property declaration")
+    return some ⟨decls, ← parsePVals (← fld i "preset"), ← parsePVals (← fld i "cfg"), ← fldStr i "impl", mro⟩
+
+/-- `pinit` of a parameter in the node JSON: readonly / constant of the class-level object and of the configuration -/
+def parsePInit (a : Json) : R (Option (ParamInit VV)) := do
+  match a.getObjVal? "pinit" with
+  | .error _ => return none
+  | .ok i =>
+    if i.isNull then return none
+    let cr ← fld i "cfgReadonly"
+    return some ⟨← fldBool i "clsReadonly", ← optStr (← fld i "clsConstant"),
+                 ← (if cr.isNull then pure none else some <$> cr.getBool?), ← optStr (← fld i "cfgConstant")⟩
+
+/-- readonly / constant of every parameter DERIVED from class + configuration + finish (where `pinit` is given) -/
+def applyPInits (mod : Module JJ VV) (mj : Json) : R (Module JJ VV) := do
+  let accsJ ← fldArr mj "accs"
+  let mut out : List (Acc JJ VV) := []
+  for (a, aj) in mod.accs.zip accsJ do
+    match a with
+    | .param p =>
+      match ← parsePInit aj with
+      | some i => out := out ++ [.param (p.withInit i)]
+      | none => out := out ++ [a]
+    | .command _ => out := out ++ [a]
+  return { mod with accs := out }
+
+/-- the node with the property part of every module DERIVED from class + configuration (where `init` is given) -/
+def parseNodeInit (t : Tables) (j : Json) : R (Node JJ VV × List (String × ModInit PP)) := do
+  let n ← parseNode t j
+  let ms ← fldArr j "modules"
+  let mut out : Node JJ VV := []
+  let mut inits : List (String × ModInit PP) := []
+  for (mod0, mj) in n.zip ms do
+    let mod ← applyPInits mod0 mj
+    match ← parseInit mj mod.mro with
+    | none => out := out ++ [mod]
+    | some i =>
+      out := out ++ [{ mod with props := moduleProps (·.2) enc Generated.C06.secopBaseClasses i }]
+      inits := inits ++ [(mod.name, i)]
+  return (out, inits)
 
 def parseReport (j : Json) : R (List (ModDesc JJ)) := do
   (← arr j).mapM (fun m => do
@@ -46,15 +122,30 @@ def handle (j : Json) : R Json := do
   match k with
   | "describe" =>
     let t ← parseTables (← fld j "oracle")
-    let n ← parseNode t (← fld j "node")
+    let (n, inits) ← parseNodeInit t (← fld j "node")
     let classes := (n.filter (·.exported)).map (fun m => Json.mkObj [("m", Json.str m.name),
-      ("ic", jstrs (interfaceClassesOf Generated.C06.secopBaseClasses m.mro)), ("features", jstrs (featuresOf m.mro))])
-    return Json.mkObj [("report", jarr ((describe predef n).map modDescJson)), ("classes", jarr classes)]
+      ("ic", jstrs (interfaceClassesOf Generated.C06.secopBaseClasses m.mro)), ("features", jstrs (featuresOf m.mro)),
+      ("impl", jopt Json.str ((inits.find? (·.1 == m.name)).map (·.2.impl)))])
+    -- the model's answer to every request of the sweep (same stepping as C04's `history`), for the exchange correspondence
+    let steps ← match j.getObjVal? "steps" with
+      | .error _ => pure []
+      | .ok a => (← arr a).mapM (fun s => do
+          return (mkEnv t (← parseDrv (← fld s "drv")), ← parseReq (← fld s "req")))
+    return Json.mkObj [("report", jarr ((describe predef n).map modDescJson)), ("classes", jarr classes),
+                       ("outs", jarr ((runSteps n steps).map outJson))]
   | "judge" =>
     let t ← parseTables (← fld j "oracle")
-    let n ← parseNode t (← fld j "node")
+    let (n, inits) ← parseNodeInit t (← fld j "node")
     let r1 ← parseReport (← fld j "report1")
     let r2 ← parseReport (← fld j "report2")
+    -- "is strict JSON": the text the node would send must parse as JSON (NaN / Infinity tokens do not)
+    match j.getObjVal? "text" with
+    | .error _ => pure ()
+    | .ok t =>
+      let strict := match t with
+        | .str s => (Json.parse s).isOk
+        | _ => false
+      if !strict then return Json.mkObj [("bad", jarr [Json.str "report-not-strict-json", jnat 0, Json.str ""])]
     if !(stableB r1 r2) then return Json.mkObj [("bad", jarr [Json.str "unstable", jnat 0, Json.str ""])]
     if !(listsExactlyB predef n r1) then return Json.mkObj [("bad", jarr [Json.str "lists", jnat 0, Json.str ""])]
     -- interface class and features against the class chain of the implementing class
@@ -65,6 +156,11 @@ def handle (j : Json) : R Json := do
       | some mod =>
         if !(classPropsB Generated.C06.secopBaseClasses mod.mro (← fldStrs c "ic") (← fldStrs c "features")) then
           return Json.mkObj [("bad", jarr [Json.str "class-props", jnat 0, Json.str m])]
+        match inits.find? (·.1 == m) with
+        | none => pure ()
+        | some (_, i) =>
+          if !(implementationB i.impl (← optStr (← fld c "impl"))) then
+            return Json.mkObj [("bad", jarr [Json.str "class-props", jnat 0, Json.str m])]
     let env := mkEnv t .none
     let mut i := 0
     -- requests: report against behaviour
@@ -80,14 +176,21 @@ def handle (j : Json) : R Json := do
             | .allow .. => true
             | _ => false
           | _ => false
+        let hasData := match req with
+          | .do_ _ d => d.isSome
+          | _ => false
+        let client := match s.getObjVal? "client" with
+          | .ok (.bool b) => b
+          | _ => false
         let pr : Probe JJ VV := ⟨kind, m, a, ← parseReply (← fld o "reply"), ← (← fldArr o "calls").mapM parseCall,
-          false, allowed⟩
+          false, allowed, hasData, client⟩
         if !(probeOKB r1 pr) then
           let what := match findDesc r1 m a with
             | none => "undescribed-reachable"
             | some _ => match kind with
               | .change => "flag-not-honoured"
               | .read => "constant-not-read"
+              | .do_ => "command-datainfo-not-honoured"
               | _ => "other"
           return Json.mkObj [("bad", jarr [Json.str what, jnat i, Json.str s!"{m}:{a}"])]
       i := i + 1
@@ -96,7 +199,7 @@ def handle (j : Json) : R Json := do
     for s in ← fldArr j "activates" do
       let m ← fldStr s "m"
       let a ← fldStr s "a"
-      let pr : Probe JJ VV := ⟨.activate, m, a, ← parseReply (← fld s "reply"), [], ← fldBool s "subsChanged", false⟩
+      let pr : Probe JJ VV := ⟨.activate, m, a, ← parseReply (← fld s "reply"), [], ← fldBool s "subsChanged", false, false, false⟩
       if !(probeOKB r1 pr) then
         return Json.mkObj [("bad", jarr [Json.str "undescribed-subscribed", jnat i, Json.str s!"{m}:{a}"])]
       i := i + 1
